@@ -1,10 +1,66 @@
-import Hannibal.Monitor.Basic
+import Hannibal.Monitor.Handles
 /-
-  C04 — stop is a drain barrier; termination is announced after stopped().
+  C04 — stop is a drain barrier and termination is announced after stopped().
+
+  `monC04`  : announcement — awaiting an address, `halt`, `try_halt` and `join` resolve only after the
+              `stopped` callback has finished, with Ok / the value exactly when termination was
+              graceful, and with an error only when the actor failed.
+  `monC04q` : drain barrier — everything whose `send` returned Ok before the first stop request is
+              handled; nothing submitted after an accepted stop request returned is ever handled (its
+              call returns an error); the actor has terminated gracefully by quiescence.
 -/
 namespace Hannibal
 
 structure C04St where
+  hold : HoldSt                -- (for the kinds of the pending operations)
+  failure : Bool
+  stoppedDone : Bool           -- `stopped` finished and no callback began since
+  terminated : Bool
+  deriving Repr, DecidableEq
+
+def isLatchKind : OpKind → Bool
+  | .halt | .tryHalt | .await => true
+  | _ => false
+
+def isJoinKind : OpKind → Bool
+  | .join | .consume => true
+  | _ => false
+
+def bad04 (st : C04St) : Label → Bool
+  | .ret o r =>
+    (match lookup o st.hold.ops with
+     | some (k, _) =>
+       if isLatchKind k then
+         (match r with
+          | .ok => !(st.stoppedDone && !st.failure)       -- Ok only after a graceful `stopped`
+          | .err .canceled => !st.failure                 -- the termination error only if it failed
+          | _ => false)
+       else if isJoinKind k then
+         (match r with
+          | .some _ => !(st.terminated && st.stoppedDone && !st.failure)
+          | _ => false)
+       else false
+     | none => false)
+  | _ => false
+
+def failsActor (failOnTimeout : Bool) : Label → Bool
+  | .cbAbandon _ => failOnTimeout
+  | l => l.isFailure
+
+def next04 (c : MonCtx) (st : C04St) (l : Label) : C04St :=
+  let st := { st with hold := st.hold.step l }
+  let st := if failsActor c.cfg.failOnTimeout l then { st with failure := true } else st
+  let st := if l.terminates then { st with terminated := true } else st
+  match l with
+  | .cbBegin _ => { st with stoppedDone := false }
+  | .cbEnd .stopped _ => { st with stoppedDone := true }
+  | _ => st
+
+def monC04 (c : MonCtx) : Mon C04St where
+  init := { hold := HoldSt.init c.h0 c.k0, failure := false, stoppedDone := false, terminated := false }
+  step st l := if bad04 st l then none else some (next04 c st l)
+
+structure C04qSt where
   ops : List (Nat × OpKind)
   stopIssued : Bool            -- some stop request was issued (accepted or not)
   stopAccepted : Bool          -- some stop request was accepted and has returned
@@ -12,14 +68,13 @@ structure C04St where
   late : List Nat              -- messages whose operation began after an accepted stop request returned
   handled : List Nat
   failure : Bool
-  stoppedDone : Bool           -- `stopped` finished and no callback began since
   terminated : Bool
   streamEnded : Bool
   deriving Repr, DecidableEq
 
-def monC04 (c : MonCtx) : Mon C04St where
+def monC04q (c : MonCtx) : Mon C04qSt where
   init := { ops := [], stopIssued := false, stopAccepted := false, sentOk := [], late := [], handled := [],
-            failure := false, stoppedDone := false, terminated := false, streamEnded := false }
+            failure := false, terminated := false, streamEnded := false }
   step st l :=
     match l with
     | .begin o _ k =>
@@ -42,28 +97,9 @@ def monC04 (c : MonCtx) : Mon C04St where
           | .call m | .callw m | .tryCall m =>
             -- a message submitted after an accepted stop request returned: its call returns an error
             if st.late.contains m && !r.isErr then none else some st
-          | .halt | .tryHalt =>
-            -- resolves only after `stopped` has finished; Ok exactly when termination was graceful
-            (match r with
-             | .ok => if st.stoppedDone && !st.failure then some { st with stopAccepted := true } else none
-             | .err .canceled => if st.failure then some st else none
-             | _ => some st)       -- the stop request itself was refused
-          | .await =>
-            (match r with
-             | .ok => if st.stoppedDone && !st.failure then some st else none
-             | .err _ => if st.failure then some st else none
-             | _ => none)
-          | .join | .consume =>
-            (match r with
-             | .some _ => if st.terminated && st.stoppedDone && !st.failure then some st else none
-             | _ => some st)
+          | .halt | .tryHalt => if r == .ok then some { st with stopAccepted := true } else some st
           | _ => some st))
-    | .cbBegin cb =>
-      let st := { st with stoppedDone := false }
-      (match cb with
-       | .handle m => if st.late.contains m then none else some { st with handled := m :: st.handled }
-       | _ => some st)
-    | .cbEnd .stopped _ => some { st with stoppedDone := true }
+    | .cbBegin (.handle m) => if st.late.contains m then none else some { st with handled := m :: st.handled }
     | .streamEnd => some { st with streamEnded := true }
     | .quiescent _ =>
       -- stop accepted, no failure: everything sent before the first stop request was handled
@@ -71,8 +107,7 @@ def monC04 (c : MonCtx) : Mon C04St where
         if st.sentOk.all (fun m => st.handled.contains m) && st.terminated then some st else none
       else some st
     | l =>
-      let st := if l.isFailure || (match l with | .cbAbandon _ => c.cfg.failOnTimeout | _ => false)
-                then { st with failure := true } else st
+      let st := if failsActor c.cfg.failOnTimeout l then { st with failure := true } else st
       if l.terminates then some { st with terminated := true } else some st
 
 end Hannibal
